@@ -436,11 +436,16 @@ func (idx *KVIndex) FieldTermNumberRange(field string, min, max float64) chan KV
 	minBytes, _ := GetTermBytes(min)
 	maxBytes, _ := GetTermBytes(max)
 	out := make(chan KVTermCount, 100)
-	defer close(out)
 	if min > max {
+		close(out)
 		return out
 	}
+	go idx.fieldTermNumberRange(field, min, max, minBytes, maxBytes, out)
+	return out
+}
 
+func (idx *KVIndex) fieldTermNumberRange(field string, min, max float64, minBytes, maxBytes []byte, out chan KVTermCount) {
+	defer close(out)
 	if min < 0 {
 		minPrefix := EntryValuePrefix(field, TermNumber, minBytes)
 		maxPrefix := EntryValuePrefix(field, TermNumber, maxBytes)
@@ -495,6 +500,4 @@ func (idx *KVIndex) FieldTermNumberRange(field string, min, max float64) chan KV
 			return nil
 		})
 	}
-
-	return out
 }
